@@ -178,6 +178,19 @@ func (c11) Gen(seed uint64, tier string) *Scenario {
 				extra = fmt.Sprintf("SELECT n / 0 FROM %s;", tableName(0))
 			}
 		}
+		if rx := Sub(seed, fmt.Sprintf("c11-cross-%d", p)); m.Kind == "mixed" && p > 0 && nproc > 1 && rx.Bool(0.2) {
+			// this process works on a table that process 0 is creating (and may roll back
+			// while this one waits for its lock): the table can vanish under the waiter
+			if !strings.Contains(m.Prefixes[0], "CREATE TABLE c0") {
+				m.Prefixes[0] = "CREATE TABLE c0 (id, n);\nINSERT INTO c0 VALUES (1, 1);" + rx.PickS("", "", "\nCOMMIT;")
+			}
+			cross := rx.PickS("UPDATE c0 SET n = n + 1;", "SELECT COUNT(*) FROM c0 FOR UPDATE;", "INSERT INTO c0 VALUES (9, 9);", "SELECT * FROM c0;", "DELETE FROM c0 WHERE id = 1;", "ALTER TABLE c0 ADD z DEFAULT 1;")
+			if extra == "" {
+				extra = cross
+			} else {
+				extra = cross + "\n" + extra
+			}
+		}
 		m.Prefixes = append(m.Prefixes, prefix)
 		m.Extras = append(m.Extras, extra)
 		w := wtChoices[r.Intn(len(wtChoices))]
